@@ -1,6 +1,7 @@
 import PersimVerif.Model.Sliced
 import PersimVerif.Lemmas.Sums
 import PersimVerif.Lemmas.SortedL1
+import PersimVerif.Lemmas.SlicedW1
 import PersimVerif.Spec.Matching
 import Mathlib.Analysis.Real.Sqrt
 import Mathlib.Algebra.BigOperators.Ring.List
@@ -26,7 +27,10 @@ transport), `sw_symm`, `sw_perm`, `sw_self_perm` (zero between reorderings), `sw
 `sw_triangle`, `sw_nonneg`, and the regression witnesses `old_proj_counterexample`,
 `old_sw_counterexample` for the projection `sqrt(x²/2)` of the old code.
 
-**NOT proved** (test only, see `harness/props/c15.py`): `SwLeTwoW1` below.
+`sw_le_two_w1` (for unit directions the value is at most twice the cost of every partial matching,
+hence `≤ 2·W1`).  Nothing is left unproved for the exact-arithmetic model; rounding, the float32 direction
+vectors and the float32 `diag_theta` (projection inexact by ~4e-8) are outside every theorem and are covered
+by the tests of `harness/props/c15.py`.
 -/
 namespace PersimVerif.C15
 open PersimVerif.Sliced PersimVerif.Lemmas PersimVerif.Lemmas.SortedL1 List
@@ -385,22 +389,49 @@ theorem old_sw_counterexample {c : ℝ} (hc : c * c = 1 / 2) :
     rw [sw_ignores_diagonal [(0, 1)] h (-3) [] []]
     exact sw_self_perm _ _ _ (Perm.refl [])
 
-/-! ### NOT proved -/
+/-! ### comparison with the 1-Wasserstein distance -/
 
 /-- Euclidean distance of two points, and of a point to the diagonal -/
 def euclid (p q : ℝ × ℝ) : ℝ := Real.sqrt ((p.1 - q.1) ^ 2 + (p.2 - q.2) ^ 2)
 def toDiag (p : ℝ × ℝ) : ℝ := |p.2 - p.1| / Real.sqrt 2
 
-/-- NOT PROVED (test only). For unit directions the value never exceeds twice the 1-Wasserstein distance,
-    i.e. twice the cost of *every* partial matching (Euclidean ground metric, unmatched points go to the
-    diagonal). -/
-def SwLeTwoW1 : Prop :=
-  ∀ (dd : ℝ × ℝ) (s c : ℝ), Diag dd s c → ∀ (dirs : List (ℝ × ℝ)), dirs ≠ [] →
-    (∀ d ∈ dirs, d.1 * d.1 + d.2 * d.2 = 1) → ∀ (PD1 PD2 : Dgm)
-    (m : Spec.PM (Fin PD1.length) (Fin PD2.length)),
+/-- **the value never exceeds twice the 1-Wasserstein distance**: for unit directions (every
+    `(cos θ, sin θ)` is one) it is at most twice the cost of *every* partial matching between the two
+    diagrams (Euclidean distance between matched points, `|d − b|/√2` for points sent to the diagonal),
+    hence at most twice the least such cost (`sw_le_two_w1'`). -/
+theorem sw_le_two_w1 {dd : ℝ × ℝ} {s c : ℝ} (h : Diag dd s c) (dirs : List (ℝ × ℝ)) (hne : dirs ≠ [])
+    (hunit : ∀ d ∈ dirs, d.1 * d.1 + d.2 * d.2 = 1) (PD1 PD2 : Dgm)
+    (m : Spec.PM (Fin PD1.length) (Fin PD2.length)) :
     swVal natCast dd s dirs PD1 PD2 ≤
       2 * m.sumCost (fun i j => euclid (PD1.get i) (PD2.get j)) (fun i => toDiag (PD1.get i))
-        (fun j => toDiag (PD2.get j))
+        (fun j => toDiag (PD2.get j)) := by
+  have hproj : diagProj dd s = SlicedW1.mid := funext fun p => diagProj_eq_midpoint h p
+  rw [sw_eq_average, hproj]
+  have hlen : (0 : ℝ) < dirs.length := by
+    have : 0 < dirs.length := List.length_pos_iff.mpr hne
+    exact_mod_cast this
+  rw [div_le_iff₀ hlen]
+  set B := 2 * m.sumCost (fun i j => euclid (PD1.get i) (PD2.get j)) (fun i => toDiag (PD1.get i))
+        (fun j => toDiag (PD2.get j)) with hB
+  have hle := List.sum_le_card_nsmul
+    (dirs.map fun dir => sortedCost (slice dir PD1 (PD2.map SlicedW1.mid)) (slice dir PD2 (PD1.map SlicedW1.mid))) B
+    (by
+      intro x hx
+      obtain ⟨d, hd, rfl⟩ := List.mem_map.mp hx
+      exact SlicedW1.sortedCost_slice_le d (hunit d hd) m)
+  rw [List.length_map, nsmul_eq_mul] at hle
+  linarith
+
+/-- in terms of the Wasserstein distance itself (the minimum cost over all partial matchings) -/
+theorem sw_le_two_w1' {dd : ℝ × ℝ} {s c : ℝ} (h : Diag dd s c) (dirs : List (ℝ × ℝ)) (hne : dirs ≠ [])
+    (hunit : ∀ d ∈ dirs, d.1 * d.1 + d.2 * d.2 = 1) (PD1 PD2 : Dgm) (w : ℝ)
+    (hw : Spec.IsMinSum (M := Fin PD1.length) (N := Fin PD2.length)
+      (fun i j => euclid (PD1.get i) (PD2.get j)) (fun i => toDiag (PD1.get i))
+      (fun j => toDiag (PD2.get j)) w) :
+    swVal natCast dd s dirs PD1 PD2 ≤ 2 * w := by
+  obtain ⟨m, hm⟩ := hw.attained
+  rw [← hm]
+  exact sw_le_two_w1 h dirs hne hunit PD1 PD2 m
 
 /-! ### non-vacuity -/
 
@@ -431,6 +462,16 @@ example {c : ℝ} (hc : c * c = 1 / 2) : swVal natCast (c, c) (2 * c) [(0, 1)] [
     nil_append, append_nil, mergeSort_singleton, cb_cons, cb_nil_left, sum_cons, sum_nil, length_cons,
     length_nil]
   norm_num
+
+/-- the hypotheses of `sw_le_two_w1` are met: two unit directions, a one-point diagram against the empty one,
+    the empty matching -/
+example {c : ℝ} (hc : c * c = 1 / 2) :
+    swVal natCast (c, c) (2 * c) [(0, 1), (1, 0)] [(0, 1)] [] ≤
+      2 * (Spec.PM.empty : Spec.PM (Fin [((0 : ℝ), (1 : ℝ))].length) (Fin ([] : Dgm).length)).sumCost
+        (fun i j => euclid ([((0 : ℝ), (1 : ℝ))].get i) (([] : Dgm).get j))
+        (fun i => toDiag ([((0 : ℝ), (1 : ℝ))].get i)) (fun j => toDiag (([] : Dgm).get j)) :=
+  sw_le_two_w1 ⟨rfl, rfl, hc⟩ _ (by simp)
+    (by intro d hd; simp at hd; rcases hd with rfl | rfl <;> norm_num) _ _ _
 
 end
 
